@@ -176,14 +176,14 @@ func main() {
 		tasks = append(tasks, task{fmt.Sprintf("produce/%d", sh), func(h *H) { h.phaseProduce(sh, 4) }})
 	}
 	tasks = append(tasks,
-		task{"utf8", func(h *H) { h.phaseUTF8() }}, task{"limits/0", func(h *H) { h.phaseLimits(0, 8) }})
-	for sh := 1; sh < 8; sh++ {
-		tasks = append(tasks, task{fmt.Sprintf("limits/%d", sh), func(h *H) { h.phaseLimits(sh, 8) }})
+		task{"utf8", func(h *H) { h.phaseUTF8() }}, task{"limits/0", func(h *H) { h.phaseLimits(0, 14) }})
+	for sh := 1; sh < 14; sh++ {
+		tasks = append(tasks, task{fmt.Sprintf("limits/%d", sh), func(h *H) { h.phaseLimits(sh, 14) }})
 	}
 	var mu sync.Mutex
 	timings := map[string]float64{}
 	var wg sync.WaitGroup
-	sem := make(chan struct{}, 20)
+	sem := make(chan struct{}, 24)
 	for _, tk := range tasks {
 		wg.Add(1)
 		go func() {
